@@ -41,7 +41,7 @@ def bounds(tier):
             "weights": [False, True], "image dtype": ["complex128", "float64"],
             "recons": {"SenseRecon": ["CG", "GradientMethod", "PDHG", "ADMM"], "TotalVariationRecon": ["PDHG(default)", "ADMM"],
                        "L1WaveletRecon": ["GradientMethod(default)", "PDHG", "ADMM"]},
-            "lamda": [0, 0.05], "data": ["consistent", "noisy"]}
+            "lamda": [0, 0.05], "data": ["consistent", "noisy"], "maps": ["generic", "one coil with zero map and zero data (index 0 or last)"]}
 
 
 IMGS = [[2, 3], [3, 3], [4, 4], [2, 2, 3]]
@@ -73,6 +73,12 @@ def gen_cases(tier, seed):
                                     continue
                                 cases.append(dict(kind="recon", app=app, solver=solver, lamda=lam, batch_size=bs, coord=cf,
                                                   data=data, weights=wts))
+                                if not wts and bs is None and (solver is None or T):
+                                    # a coil that sees nothing (zero map, zero data): valid maps and data; with two live
+                                    # coils the problem stays fully determined
+                                    for dead in (0, 2):
+                                        cases.append(dict(kind="recon", app=app, solver=solver, lamda=lam, batch_size=bs, coord=cf,
+                                                          data=data, weights=wts, dead=dead))
                                 if solver == "ADMM" and data == "noisy" and not wts and bs is None:
                                     cases.append(dict(kind="recon", app=app, solver=solver, lamda=lam, batch_size=bs, coord=cf,
                                                       data=data, weights=wts, rho=2.0))
@@ -211,6 +217,9 @@ def run_recon(case, seed):
 
     def V(oracle, detail):
         viol.append(dict(oracle=oracle, key=dict(site="mri.app." + app_name, when=when), detail=detail + " | " + str(case)))
+    if case.get("dead") is not None:
+        mps = mps.copy()
+        mps[case["dead"]] = 0
     E = explicit_matrix(img, mps, coord, None)          # unweighted encoding
     r = np.random.default_rng(9 + seed)
     xt = (r.standard_normal(img) + 1j * r.standard_normal(img))
@@ -219,6 +228,8 @@ def run_recon(case, seed):
     y = (E @ xt.ravel()).reshape([nc] + (img if coord is None else [coord.shape[0]]))
     if case["data"] == "noisy":
         y = y + 0.05 * (r.standard_normal(y.shape) + 1j * r.standard_normal(y.shape))
+    if case.get("dead") is not None:
+        y[case["dead"]] = 0
     # documented objective: 1/2 || sqrt(w) (E x - y) ||^2 + reg
     w_eff = weights
     if weights is None and coord is None:
